@@ -161,6 +161,7 @@ PipelineVerdict(post, children) ==
   IN
     V(~escaped, "C14_forked_child_escaped")
     \cup V(res.errkind # "panic", "C13_panic")
+    \cup (IF res.errkind = "panic" THEN {"C14_panic", "C12_panic", "C08_panic", "C01_panic", "C18_panic"} ELSE {})
     \* ---- C08 / C18 for every stage that started
     \cup V(\A i \in 1..Len(stages) : NoLeakStage(stages[i]), "C08_no_pipe_end_leaks")
     \* (C13's "and nothing else": a command holds no further copy of a connecting pipe or of the shared stderr sink)
